@@ -1,0 +1,26 @@
+//go:build verif
+
+package common
+
+import "math/big"
+
+// Verification hooks (build tag verif): accessors used by the /verif harness.
+
+func VerifIntegerFromBig(b *big.Int) (v Integer) {
+	v.i.Set(b)
+	return
+}
+
+func VerifIntegerBig(x Integer) *big.Int {
+	return new(big.Int).Set(&x.i)
+}
+
+func VerifRationFromParts(x, y *big.Int) (r RationalNumber) {
+	r.x.Set(x)
+	r.y.Set(y)
+	return
+}
+
+func VerifRationParts(r RationalNumber) (*big.Int, *big.Int) {
+	return new(big.Int).Set(&r.x), new(big.Int).Set(&r.y)
+}
